@@ -3,6 +3,7 @@ package props
 import (
 	"verif/sa/internal/e5path"
 	"verif/sa/internal/e8grammar"
+	"verif/sa/internal/e9pos"
 	"verif/sa/internal/load"
 	"verif/sa/internal/oblig"
 )
@@ -45,7 +46,9 @@ func runC09(r *oblig.Report) {
 	// the whole document reaches the parser: a pre-pass that drops lines (or the rest of the text) lets a violation
 	// behind the cut pass unseen (shared with C03/C16)
 	r.Rule("R9.1", "instance-table", "the pre-pass hands the parser every line of the input: split at the line breaks, one cleaned line per input line, joined again, only an inline comment cut off", 4)
-	prePassClauses(c.P, r, "R9.1", "join", "one-line-out-per-line-in", "split", "inline-comment-cut", "line-loop")
+	pp := prePassClauses(c.P, r, "R9.1", "join", "one-line-out-per-line-in", "split", "inline-comment-cut", "line-loop")
+	r.Rule("R9.1n", "instance-table", "the pre-pass and the lexer agree on where a line ends (a comment is cut to the end of the LEXER's line)", 3)
+	e9pos.LineEndsAgree(r, "R9.1n", w.LexerG, pp)
 	e5path.SyntaxErrorAlwaysRecords(c.P, r, "R5.2")
 	lfs := c.Reach(c.Entries("transformer.TransformDSLToProto", "transformer.TransformModularDSLToProto"))
 	r.Rule("R5.4s", "path-enumeration", "a declaration that meets the conditions under which its callback registers it is registered or reported on every path of that callback (never dropped from the bookkeeping silently)", 3)
